@@ -289,77 +289,105 @@ struct Model {
 			return OK;
 		}
 		if (op == "rmsec") {
-			// by path: "name", "name=index" (untitled multi) or "name=title"
-			size_t eq = name.find('=');
-			std::string base = name.substr(0, eq);
-			if (base.find_first_of("|'\\") != std::string::npos)
-				return DONTCARE;
-			// the part after '=': a bare word up to the end, or a quoted title '...' in which \' and \\ are the only escapes
-			std::string q;
-			bool quoted = false, malformed = false;
-			if (eq != std::string::npos) {
-				std::string rest = name.substr(eq + 1);
-				if (!rest.empty() && rest[0] == '\'') {
-					quoted = true;
-					size_t i = 1;
-					bool closed = false;
-					while (i < rest.size()) {
-						char c = rest[i];
-						if (c == '\'') {
-							closed = true;
-							i++;
-							break;
-						}
-						if (c == '\\') {
-							if (i + 1 < rest.size() && (rest[i + 1] == '\'' || rest[i + 1] == '\\')) {
-								q += rest[i + 1];
-								i += 2;
-								continue;
-							}
-							malformed = true;
-							break;
-						}
-						q += c;
-						i++;
-					}
-					if (!malformed && !closed)
-						malformed = true;
-					if (!malformed && rest.find_first_not_of('|', i) != std::string::npos)
-						return DONTCARE; // a further path component follows
-				} else {
-					if (rest.find_first_of("|'\\") != std::string::npos)
-						return DONTCARE;
-					q = rest;
-				}
-			}
-			json *o = find_opt(*node, base, nocase());
-			if (!o || (*o)["t"] != "sec") {
-				*why = "not a section";
-				return FAIL;
-			}
-			int fl = (*o)["fl"].get<int>();
-			long i = -1;
-			if (eq == std::string::npos)
-				i = 0;
-			else if (fl & F_MULTI) {
-				if (q.empty() && !quoted)
+			// by path: components separated by '|'; each is "name", "name=index" (untitled multi), "name=title" or
+			// "name='quoted title'" (\' and \\ are the only escapes).  Every component but the last selects the section
+			// instance to descend into; the last one selects the instance to remove.  Forms outside this grammar
+			// (empty components, stray separators) are don't-cares here.
+			json *cur = node;
+			size_t pos = 0;
+			while (true) {
+				size_t e = name.find_first_of("|=", pos);
+				std::string base = name.substr(pos, e == std::string::npos ? std::string::npos : e - pos);
+				if (base.empty() || base.find_first_of("'\\") != std::string::npos)
 					return DONTCARE;
-				if (malformed)
-					i = -1;
-				else if (fl & F_TITLE)
-					i = title_index(*o, q, nocase());
-				else {
-					char *end = nullptr;
-					long v = strtol(q.c_str(), &end, 0);
-					i = (*end == 0) ? v : -1;
+				bool has_q = e != std::string::npos && name[e] == '=';
+				std::string q;
+				bool quoted = false, malformed = false;
+				size_t next = e; // position of the '|' that ends this component, or npos
+				if (has_q) {
+					size_t i = e + 1;
+					if (i < name.size() && name[i] == '\'') {
+						quoted = true;
+						i++;
+						bool closed = false;
+						while (i < name.size()) {
+							char c = name[i];
+							if (c == '\'') {
+								closed = true;
+								i++;
+								break;
+							}
+							if (c == '\\') {
+								if (i + 1 < name.size() && (name[i + 1] == '\'' || name[i + 1] == '\\')) {
+									q += name[i + 1];
+									i += 2;
+									continue;
+								}
+								malformed = true;
+								break;
+							}
+							q += c;
+							i++;
+						}
+						if (!malformed && !closed)
+							malformed = true;
+						if (malformed)
+							next = std::string::npos; // resolution stops here anyway
+						else if (i < name.size() && name[i] != '|')
+							return DONTCARE; // text right after the closing quote
+						else
+							next = i < name.size() ? i : std::string::npos;
+					} else {
+						size_t bar = name.find('|', i);
+						q = name.substr(i, bar == std::string::npos ? std::string::npos : bar - i);
+						if (q.find_first_of("'\\=") != std::string::npos)
+							return DONTCARE;
+						next = bar;
+					}
 				}
+				json *o = find_opt(*cur, base, nocase());
+				if (!o || (*o)["t"] != "sec") {
+					*why = "not a section";
+					return FAIL;
+				}
+				int fl = (*o)["fl"].get<int>();
+				long i = -1;
+				if (!has_q)
+					i = 0;
+				else if (fl & F_MULTI) {
+					if (q.empty() && !quoted) {
+						// "name=" : no title at all
+						i = -1;
+					} else if (malformed)
+						i = -1;
+					else if (fl & F_TITLE)
+						i = title_index(*o, q, nocase());
+					else {
+						char *end = nullptr;
+						long v = strtol(q.c_str(), &end, 0);
+						i = (*end == 0) ? v : -1;
+					}
+				}
+				if (i < 0 || (size_t)i >= (*o)["s"].size()) {
+					*why = "path does not resolve";
+					return FAIL;
+				}
+				// more components?
+				size_t rest = next == std::string::npos ? std::string::npos : name.find_first_not_of('|', next);
+				if (next != std::string::npos && rest != std::string::npos) {
+					if (rest != next + 1)
+						return DONTCARE; // a run of separators
+					cur = &(*o)["s"][i]["cfg"];
+					if (cur->is_null())
+						return DONTCARE;
+					pos = rest;
+					continue;
+				}
+				if (next != std::string::npos)
+					return DONTCARE; // trailing separator
+				(*o)["s"].erase((*o)["s"].begin() + i);
+				return OK;
 			}
-			if (i < 0 || (size_t)i >= (*o)["s"].size()) {
-				*why = "path does not resolve";
-				return FAIL;
-			}
-			(*o)["s"].erase((*o)["s"].begin() + i);
-			return OK;
 		}
 		return DONTCARE;
 	}
